@@ -221,6 +221,7 @@ Definition read_line (hold : bool) (pre : bytes) (k : cst) (ev : read_ev) (rest'
   (mkCst c2 rest' nfd',
    pre ++ B"rd=" ++ s_rd res ++ B" sys=" ++ bit sys ++ B" held=" ++ decn (length (c_files c2))
    ++ B" pend=" ++ bit (pending_write c2)
+   ++ (if hold then B" q=" ++ decn (length (c_parsed c2)) else [])
    ++ flat_map (fun r => B" | " ++ s_req r) reqs,
    is_rd_ok res).
 
